@@ -127,6 +127,20 @@ def bool_dag(b):
 
 
 def check_formula(run, bp, g, cards):
+    try:
+        return _check_formula(run, bp, g, cards)
+    except Exception as e:
+        import traceback
+        tb = traceback.extract_tb(e.__traceback__)
+        if not tb or "/pysmt/" not in tb[-1].filename:
+            raise                # (an error of the harness itself)
+        # an analysis of a well-typed formula raised inside pySMT
+        run.fail({"subcheck": "analysis-raised", "exc": type(e).__name__, "where": tb[-1].name},
+                 {"formula": bp}, "%s raised in %s (%s:%d) while analysing %s" % (
+                     type(e).__name__, tb[-1].name, tb[-1].filename.rsplit("/", 1)[-1], tb[-1].lineno, show(bp, 200)))
+
+
+def _check_formula(run, bp, g, cards):
     env = Environment()
     with env:
         try:
@@ -204,7 +218,20 @@ def check_formula(run, bp, g, cards):
             fail("size-default", "size() = %r expected TREE_NODES %r" % (f.size(), tree))
         # -- sorts
         lower, upper = ref_type_bounds(b)
-        rep = {pys.from_ptype(t) for t in env.typeso.get_types(f)}
+        got_types = env.typeso.get_types(f)
+        rep = {pys.from_ptype(t) for t in got_types}
+        if isinstance(got_types, list):
+            # the answer belongs to the caller: what the caller does with it does not change the next answer
+            got_types.reverse()
+            del got_types[len(got_types) // 2:]
+            try:
+                again = {pys.from_ptype(t) for t in env.typeso.get_types(f)}
+            except Exception as e:
+                again = "%s: %s" % (type(e).__name__, e)
+            run.cls("types:asked-again-after-the-caller-changed-the-answer")
+            if again != rep:
+                fail("types-answer-shared", "get_types gave %r, and after the caller modified that list %r" % (
+                    sorted(rep, key=repr), again if isinstance(again, str) else sorted(again, key=repr)))
         if not (lower <= rep):
             fail("types-missing", "get_types misses %r (reported %r)" % (sorted(lower - rep, key=repr), sorted(rep, key=repr)))
         if not (rep <= upper):
